@@ -263,6 +263,15 @@ class Array(Base):
         # Functions that do not transform the unit (sum, concatenate, maximum, ...)
         # combine their operands in one common unit: operands in another unit are
         # converted, and incompatible units raise.
+        if func.__name__ in ("add", "subtract"):
+            # As in ``a + b``, a number or ndarray without unit is dimensionless: it
+            # cannot be added to a dimensional Array, whichever side it stands on.
+            args = tuple(
+                self.__class__(a)
+                if isinstance(a, (int, float, np.number, np.ndarray))
+                else a
+                for a in args
+            )
         common_unit = None
         if func.__name__ not in APPLY_OP_TO_UNIT:
             common_unit = self._common_unit(args)
